@@ -8,7 +8,7 @@ from hypothesis import strategies as st
 from job_shop_lib.dispatching import DispatcherObserverConfig
 from job_shop_lib.generation import GeneralInstanceGenerator
 from job_shop_lib.graphs import NodeType
-from job_shop_lib.graphs.graph_updaters import ResidualGraphUpdater
+from job_shop_lib.graphs.graph_updaters import GraphUpdater, ResidualGraphUpdater
 from job_shop_lib.reinforcement_learning import (
     MultiJobShopGraphEnv,
     SingleJobShopGraphEnv,
@@ -23,7 +23,7 @@ RULE = (
     "Generated: graph builder (4) x feature-observer config list (generated "
     "sub-list and order of the 7 types with generated feature-type subsets, "
     "as enum / string / class) x reward class x updater flags x filter x "
-    "use_padding x {single env over a generated instance with positive "
+    "use_padding x graph updater (ResidualGraphUpdater with generated flags; single env also a user-written GraphUpdater that removes edges but never nodes) x {single env over a generated instance with positive "
     "durations, flexible allowed | multi env over a GeneralInstanceGenerator "
     "with generated ranges, one machine per operation, no recirculation} x action sequence (legal "
     "decisions: any job with operations left, explicit eligible machine id or "
@@ -93,6 +93,7 @@ def strategy(tier):
             kind=st.just("single"),
             inst=inst,
             prune=gen.weighted((3, st.just([])), (1, st.lists(st.integers(0, 30), min_size=1, max_size=2))),
+            updater=gen.pick([None, None, "arc_pruner"]),
         )
     )
 
@@ -121,7 +122,29 @@ def strategy(tier):
     return gen.weighted((3, single), (2, multi))
 
 
+class ArcPruner(GraphUpdater):
+    """A user-written graph updater (the environments take any GraphUpdater
+    through graph_updater_config): it removes the arcs that point from other
+    jobs' operations into the operation just dispatched - edges change, no
+    node is ever removed."""
+
+    def update(self, scheduled_operation):
+        g = self.job_shop_graph
+        op = scheduled_operation.operation
+        node_id = op.operation_id
+        if node_id not in g.graph:  # (swept away as an isolated node)
+            return
+        for u in list(g.graph.predecessors(node_id)):
+            src = g.nodes[u]
+            if src.node_type == NodeType.OPERATION and src.operation.job_id != op.job_id:
+                g.graph.remove_edge(u, node_id)
+
+
 def env_kwargs(case):
+    if case.get("updater") == "arc_pruner" and case["kind"] == "single":
+        kw = env_kwargs(dict(case, updater=None))
+        kw["graph_updater_config"] = DispatcherObserverConfig(ArcPruner)
+        return kw
     kw = {
         "feature_observer_configs": [obs.observer_config(c) for c in case["features"]],
         "reward_function_config": DispatcherObserverConfig(obs.REWARDS[case["reward"]]),
@@ -320,6 +343,9 @@ def run_episodes(ctx, case, env, get_inner, multi, after_reset):
 def check_case(case, ctx):
     kw = env_kwargs(case)
     builder = obs.BUILDERS[case["builder"]]
+    if case.get("updater") == "arc_pruner" and case["kind"] == "single" and len(case["episodes"]) % 2:
+        # (the graph in which operations of different jobs are linked)
+        builder = obs.BUILDERS["disjunctive"]
     if case["kind"] == "single":
         instance = build_instance(case["inst"])
         graph = builder(instance)
@@ -336,6 +362,8 @@ def check_case(case, ctx):
                 if ids:
                     graph.remove_node(ids[x % len(ids)])
             ctx.label("pruned_graph")
+        if case.get("updater"):
+            ctx.label("updater=" + case["updater"])
         env = SingleJobShopGraphEnv(graph, **kw)
         removed_early = run_episodes(ctx, case, env, lambda: env, False, lambda inner, where: None)
         ctx.label(*gen.inst_labels(case["inst"]))
